@@ -93,6 +93,7 @@ def check(run):
     prog = run.prog
     from . import common as _common
     _common.fresh_hits(run, "C10")
+    _common.no_unsafe_cuts(run, "C10", "R0-no-cut", floor=3)
     nm = prog.mod("decoders.network")
     w = lambda n, m=nm: f"{m.rel}:{getattr(n, 'lineno', 1)}"   # noqa: E731
     mth = prog.fn("hit.match_to_hit")
@@ -404,6 +405,37 @@ def check(run):
         not other and G.equivalent(f_lab, shorter)[0] and G.equivalent(f_emp, G.f_not(shorter))[0]
     run.ob("R4-percent", "decoders.network.normalize_percent_encoding/label-guard", okl, w(npe.node), "labelled escape.percent exactly when normalisation shortened the text", "",
            mech="truth table with integer theory")
-    # the URL node's value is that normalised text and its span the (possibly trimmed) match
-    run.floor("R4-percent", 3)
+    # the URL node's value is the normalisation of exactly the text its span covers (trimming happens BEFORE normalising: indices of
+    # the normalised text are not positions of the raw one)
+    fu = prog.fn("decoders.network.find_urls")
+    from .. import prov
+    from .. import sites as _sites
+    from ..absint import fmt_term
+    A_ = _sites.analysis(prog)
+    hits_u, interp_u, _nu = A_.run(fu)
+    need(hits_u, "anchor: find_urls builds no node")
+    groups_u = {}
+    for h_ in hits_u:
+        t_ = prov.value_term(h_)
+        ok_, why_ = False, f"value term {fmt_term(t_)} is not the percent-normalisation of a piece of the data"
+        if isinstance(t_, tuple) and t_ and t_[0] == "re.sub":
+            ext = prov.extent_of_term(t_[3], interp_u)
+            ls_, le_ = interp_u.as_lin(h_.fields["start"]), interp_u.as_lin(h_.fields["end"])
+            if ext is None:
+                why_ = f"normalised text {fmt_term(t_[3])} is not a contiguous piece of the scanned data"
+            elif ls_ is None or le_ is None:
+                why_ = "span is not an integer expression"
+            else:
+                ok_ = h_.state.eq(ls_, ext[0]) and h_.state.eq(le_, ext[1])
+                why_ = f"span = ({ls_}, {le_}) but the normalised text is data[{ext[0]} : {ext[1]}] ({fmt_term(t_[3])})"
+        shape_ = {"group": "whole-match", "slice": "trimmed-match"}.get(t_[3][0] if isinstance(t_, tuple) and len(t_) > 3 and isinstance(t_[3], tuple) and t_[3] else "", "other-text")
+        g_ = groups_u.setdefault(shape_, [True, "", 0])
+        g_[0] = g_[0] and ok_
+        g_[1] = g_[1] or ("" if ok_ else why_)
+        g_[2] += 1
+    for k_, (ok_, why_, n_) in sorted(groups_u.items()):
+        run.ob("R4-percent", f"decoders.network.find_urls/value-normalises-covered-text/{k_}", ok_, w(fu.node),
+               "the URL node's value is normalize_percent_encoding(data[start:end]) for the node's own (start, end)", why_ if not ok_ else f"{n_} paths",
+               mech="provenance term of the value x span equality (E4)")
+    run.floor("R4-percent", 4)
     run.floor("R3-alphabets", 4)
